@@ -114,8 +114,8 @@ func (s *Server) typecheck(ctx context.Context, uri lsp.DocumentURI, version uin
 		rng, _, _ := strings.Cut(content[p.Origin.Offset:p.Origin.EndOffset], "\n")
 		res = append(res, lsp.Diagnostic{
 			Range: lsp.Range{
-				Start: lsp.Position{Line: uint32(p.Origin.Line - 1), Character: uint32(p.Origin.Column - 1)},
-				End:   lsp.Position{Line: uint32(p.Origin.Line - 1), Character: uint32(p.Origin.Column - 1 + len(rng))},
+				Start: position(content, p.Origin.Offset),
+				End:   position(content, p.Origin.Offset+len(rng)),
 			},
 			Severity: lsp.DiagnosticSeverityError,
 			Message:  p.Msg,
@@ -212,16 +212,29 @@ func (id id) Kind() int {
 }
 
 func (id id) Location(uri lsp.DocumentURI) lsp.Location {
-	line, col := id.Node.LineColumn()
-
-	// Note: this function does not handle Unicode correctly
+	content := id.Node.Tree().Text()
 	return lsp.Location{
 		URI: uri,
 		Range: lsp.Range{
-			Start: lsp.Position{Line: uint32(line - 1), Character: uint32(col - 1)},
-			End:   lsp.Position{Line: uint32(line - 1), Character: uint32(col - 1 + len(id.Node.Text()))},
+			Start: position(content, id.Offset()),
+			End:   position(content, id.Endoffset()),
 		},
 	}
+}
+
+// position converts a byte offset in content into an LSP position: a zero-based line
+// and a zero-based offset within that line measured in UTF-16 code units.
+func position(content string, offset int) lsp.Position {
+	line := strings.Count(content[:offset], "\n")
+	start := strings.LastIndexByte(content[:offset], '\n') + 1
+	var col uint32
+	for _, r := range content[start:offset] {
+		col++
+		if r > 0xffff {
+			col++ // encoded as a surrogate pair
+		}
+	}
+	return lsp.Position{Line: uint32(line), Character: col}
 }
 
 func collectIDs(ctx context.Context, filename, content string) []id {
